@@ -195,3 +195,56 @@ func VerifC12Ids() {
 		v.Assert("C12.results-complete", isMap && typed && m["focusNode"] == "n" && m["resultMessage"] == "m")
 	}
 }
+
+
+// VerifC12ManyResults: reports with many results per level (two-digit ordinals, more results than
+// any chunk or buffer a builder might use): ids stay unique and every result is there.
+func VerifC12ManyResults() {
+	sizes := [][3]int{{12, 9, 0}, {9, 0, 17}, {33, 1, 10}}
+	n := sizes[v.Choice("sizes", len(sizes))]
+	sh := &verifShape{lit: 0, labelLayout: 1}
+	sh.traces[0], sh.traces[1] = 1, 2
+	sh.subs[1] = 1
+	var vs, ws, is []any
+	for i := 0; i < n[0]; i++ {
+		vs = append(vs, verifResultTree(sh, 1, "v1"))
+	}
+	for i := 0; i < n[1]; i++ {
+		ws = append(ws, verifResultTree(sh, 0, "w1"))
+	}
+	for i := 0; i < n[2]; i++ {
+		is = append(is, verifResultTree(sh, 1, "i1"))
+	}
+	rs := verifResultSetOf("p", vs, ws, is)
+	text, err := BuildReport(&rs, c.TestValidationConfiguration{}, c.DefaultReportConfiguration())
+	v.Assert("C12.no-error", err == nil && text != "")
+	var doc any
+	if v.Symbolic() {
+		doc = v.LastEncoded()
+	} else {
+		var generic []any
+		json.Unmarshal([]byte(text), &generic)
+		doc = generic
+	}
+	var ids []string
+	verifCollectIds(doc, &ids)
+	v.Reach("ids-defined")
+	seen := map[string]bool{}
+	for _, id := range ids {
+		v.Assert("C12.ids-unique", !seen[id])
+		seen[id] = true
+	}
+	rep, _, _ := verifReportParts(text)
+	results, _ := rep["result"].([]any)
+	v.Assert("C12.results-complete", len(results) == n[0]+n[1]+n[2])
+	for k, r := range results {
+		m, isMap := r.(map[string]any)
+		want := "http://www.w3.org/ns/shacl#Info"
+		if k < n[0] {
+			want = "http://www.w3.org/ns/shacl#Violation"
+		} else if k < n[0]+n[1] {
+			want = "http://www.w3.org/ns/shacl#Warning"
+		}
+		v.Assert("C12.results-complete", isMap && m["focusNode"] == "n" && m["resultMessage"] == "m" && m["resultSeverity"] == want)
+	}
+}
